@@ -106,6 +106,9 @@ def _walk_lark_tree(op, *, data_def=None) -> data_algebra.expr_rep.Term:
                 # check we have 3 or more pieces (and an odd number of such)
                 if (nc < 3) or ((nc % 2) != 1):
                     raise ValueError("unexpected " + r_op.data + " length")
+                if (r_op.data == "comparison") and (nc > 3):
+                    # Python reads a < b < c as (a < b) and (b < c); folding it to the left would compute (a < b) < c
+                    raise ValueError("chained comparisons are not supported, write (a < b) and (b < c)")
                 # check ops are all the same
                 ops_seen = [str(r_op.children[i]) for i in range(nc) if (i % 2) == 1]
                 if (len(set(ops_seen)) == 1) and (r_op.data in ["arith_expr", "term"]):
